@@ -35,9 +35,10 @@ def _latent_tod(ts: datetime, tod: Time) -> Time:
     dm = ts + relativedelta(hour=tod.hour, minute=tod.minute or 0)
     if dm <= ts:
         dm += relativedelta(days=1)
+    # the anchored value covers the same characters as the original one
     return Time(
         year=dm.year, month=dm.month, day=dm.day, hour=dm.hour, minute=dm.minute
-    )
+    ).update_span(tod)
 
 
 def _latent_time_interval(ts: datetime, ti: Interval) -> Interval:
@@ -62,4 +63,4 @@ def _latent_time_interval(ts: datetime, ti: Interval) -> Interval:
             hour=dm_to.hour,
             minute=dm_to.minute,
         ),
-    )
+    ).update_span(ti)
